@@ -46,6 +46,10 @@ Theorem C16_equals_equivalence : forall a b c, msg_wf a -> msg_wf b -> msg_wf c 
   /\ (equals true a b = true -> equals true b c = true -> equals true a c = true).
 Proof. exact equals_equivalence. Qed.
 
+(** nil and empty payload / metadata are the same value (len, range and bytes.Equal cannot tell them apart) *)
+Theorem C16_equals_nil_is_empty : forall f u, equals f (Msg u None None) (Msg u (Some []) (Some [])) = true.
+Proof. exact equals_nil_empty. Qed.
+
 (** * Copy *)
 
 (** In every store a script can produce, Copy of object i yields a new object that has the
@@ -219,6 +223,7 @@ Print Assumptions C16_equals_symmetric_refuted.
 Print Assumptions C16_equals_if_pinned.
 Print Assumptions C16_equals_acceptor.
 Print Assumptions C16_equals_equivalence.
+Print Assumptions C16_equals_nil_is_empty.
 Print Assumptions C16_copy_equal_unsettled_fresh.
 Print Assumptions C16_copy_owns_metadata.
 Print Assumptions C16_set_touches_one_object.
